@@ -171,6 +171,20 @@ def kernel_lemmas(rep, timeout):
                 for k in range(3):
                     obs.append(oblig.Ob("antisymmetry K(r2,r1) = -K(r1,r2) [%d] path %s" % (k, pa.label()), lhs=pb.result[0, k], rhs=-pa.result[0, k],
                                         assume=pa.conds + pb.conds, meta={"family": "finite-vortex kernel is antisymmetric in its end points"}))
+    Mv = np.array([1, -1, 1], dtype=object)
+    with symbolic_numpy():
+        pm = execute.explore(lambda: symify(em._compute_finite_vortex(r1 * Mv, r2 * Mv)))
+        psm = execute.explore(lambda: symify(em._compute_semi_infinite_vortex(u * Mv, r2 * Mv)))
+    mu = (-1, 1, -1)
+    for pa in pf:
+        for pb in pm:
+            if pa.label() == pb.label():
+                for k in range(3):
+                    obs.append(oblig.Ob("mirror covariance K(M r1, M r2) = -M K(r1, r2) [%d] path %s" % (k, pa.label()), lhs=pb.result[0, k], rhs=pa.result[0, k] * mu[k],
+                                        assume=pa.conds + pb.conds, meta={"family": "finite-vortex kernel is covariant under reflection about y = 0"}))
+    for k in range(3):
+        obs.append(oblig.Ob("semi-infinite mirror covariance [%d]" % k, lhs=psm[0].result[0, k], rhs=ps[0].result[0, k] * mu[k],
+                            meta={"family": "semi-infinite vortex kernel is covariant under reflection about y = 0"}))
     # textbook (Katz & Plotkin) finite segment: Gamma/4pi * (r1 x r2)/|r1 x r2|^2 * r0.(r1/|r1| - r2/|r2|), r0 = r1 - r2
     a, b = list(r1[0]), list(r2[0])
     cx = cross(a, b)
